@@ -71,15 +71,18 @@ CHECK_DEADLOCK FALSE
 
 
 def blocks_from_vector(vec, configs, codemap="ascii", define_only=False, mems=(0,), max_cases=None, with_fo=True,
-                       want_trees=True, extra_x=""):
+                       want_trees=True, extra_x="", text_hex=None):
     """One harness block for a vector.  configs: list of (la, one, cost, rec, match, dbg)."""
     code = CODEMAPS[codemap]
     g = gid_of(vec)
     lines = ["G " + g]
     if vec.get("terms") and isinstance(vec["terms"][0], dict):
         terms = [t["n"] for t in vec["terms"]]
+        tokcode = {t["n"]: (code(t["c"]) if t["c"] > 0 else t["c"]) for t in vec["terms"]}
         for t in vec["terms"]:
-            lines.append("T %s %d" % (tname(t["n"]), code(t["c"]) if t["c"] > 0 else t["c"]))
+            lines.append("T %s %d" % (tname(t["n"]), tokcode[t["n"]]))
+        base = code
+        code = lambda k: tokcode.get(k, base(k))
     else:
         terms = sorted({s for r in vec["rules"] for s in r["r"] if 0 < s < 10} | set(vec.get("terms", [1, 2])))
         for t in terms:
@@ -90,16 +93,19 @@ def blocks_from_vector(vec, configs, codemap="ascii", define_only=False, mems=(0
     if define_only:
         # C10: both strictness levels, each followed by a parse that must be refused when the definition failed
         for strict, d in ((1, ds), (0, dn)):
-            lines.append("D %d %s" % (strict, ",".join(map(str, d)) if d else "0"))
+            if text_hex is not None:
+                lines.append("DT %d %s %s" % (strict, ",".join(map(str, d)) if d else "0", text_hex))
+            else:
+                lines.append("D %d %s" % (strict, ",".join(map(str, d)) if d else "0"))
             if d:   # a failed definition leaves an object that refuses to parse
-                lines.append("W probe 1 %d" % code(terms[0]))
+                lines.append("W probe 1 %d" % (code(terms[0]) if terms else 97))
                 lines.append("X sent=-1")
                 lines.append("P 1 1 0 1 3 0 1")
         return lines
     if dn:
         return None
     strict = 0 if ds else 1
-    lines.append("D %d 0" % strict)
+    lines.append(("DT %d 0 %s" % (strict, text_hex)) if text_hex is not None else ("D %d 0" % strict))
     cases = vec["cases"]
     if max_cases is not None and len(cases) > max_cases:
         cases = cases[:max_cases]
@@ -109,6 +115,13 @@ def blocks_from_vector(vec, configs, codemap="ascii", define_only=False, mems=(0
         lines.append("W %s %d %s" % ("".join(map(str, w)) or "e", len(w), " ".join(str(code(t)) for t in w)))
         trees = c.get("trs") if want_trees else None
         have = 1 if (trees is not None and c["sent"] and vec.get("trees_emitted")) else 0
+        if any(t not in terms for t in w):
+            # a token that the denoted definition does not declare: YAEP_INVALID_TOKEN_CODE (C15)
+            lines.append("X sent=-1 rc=17")
+            for cfg in configs[:2]:
+                lines.append("P %d %d %d %d %d %d %d" % (cfg + (mems[k % len(mems)],)))
+                k += 1
+            continue
         x = "X sent=%d nd=%d" % (1 if c["sent"] else 0, c["nd"] if c["sent"] else -1)
         if with_fo and not ds and not c["sent"]:
             x += " fo=%d" % c["fo"]
